@@ -570,6 +570,37 @@ class RangeAnalysis:
             if mm and ty_bits(mm.group(2)) and ty_bits(mm.group(1)) and ty_bits(mm.group(2)) >= ty_bits(mm.group(1)):
                 return AV(v.pieces, ty_bits(mm.group(2)))
             return self.top()
+        if short == 'contains' and 'RangeInclusive' in fn and len(args) == 2:
+            rng = strip_ref(args[0])
+            item = strip_ref(args[1])
+            bounds = None
+            if rng[0] == 'call' and (rng[1] or '').endswith('::new') and len(rng[2]) == 2:
+                bounds = (rng[2][0], rng[2][1])
+            elif rng[0] == 'cptr' and rng[2] == 0 and '<u8>' in fn + '<u8>':
+                # a promoted RangeInclusive<u8> constant: three bytes (start, end, exhausted = 0)
+                import json as _json
+                tgt = _json.loads(rng[1])
+                raw = self.facts.mem_bytes(tgt['mem']) if 'mem' in tgt and str(tgt['mem']) in self.facts.mems else None
+                if raw is not None and len(raw) == 3:
+                    # field order is the compiler's choice: exactly one reading (flag byte 0, 0 < start <= end) must fit
+                    cands = []
+                    if raw[2] == 0 and 0 < raw[0] <= raw[1]:
+                        cands.append((raw[0], raw[1]))
+                    if raw[0] == 0 and 0 < raw[1] <= raw[2]:
+                        cands.append((raw[1], raw[2]))
+                    if len(cands) == 1:
+                        bounds = (('c', cands[0][0], 'u8'), ('c', cands[0][1], 'u8'))
+            if bounds is not None:
+                ge = self.binop(('bin', 'Ge', item, bounds[0]))
+                le = self.binop(('bin', 'Le', item, bounds[1]))
+                out = []
+                for lo, hi, pl, pr in zip_pieces(ge, le):
+                    if pl[2] == 'c' and pr[2] == 'c':
+                        out.append((lo, hi, 'c', pl[3] & pr[3]))
+                    else:
+                        out.append((lo, hi, 'T', 0))
+                return AV(out, 1).compact()
+            return self.top(1)
         if self.ptrmap is not None and short == 'eq' and len(args) == 2 and ('PartialEq' in fn or 'Encoding' in fn):
             return self.binop(('bin', 'Eq', args[0], args[1]))
         b = self.facts.body(fn)
